@@ -89,7 +89,17 @@ def check(case):
         rn = ch["seq"][i]
         exp = A.expected[(ci, i)]
         tmpl, bonds = exp["tmpl"], exp["bonds"]
+        # real-structure windows carry non-template geometry ("distortion already present in the
+        # input"): gross-error band only
+        tol_len, tol_ang = (0.15, 15.0) if "window" in ch else (TOL_LEN, TOL_ANG)
         gap_here = ch.get("drop_mode") == "gap" and any(d[0] == i for d in ch.get("drop", []))
+        if "window" in ch:
+            # a real residue with a missing atom that has present atoms beyond it is an interior gap too
+            tm = topo.RES[topo.BASE.get(rn, rn)]
+            hv = {k: [b for b in v if topo.heavy(b)] for k, v in tm["bonds"].items() if topo.heavy(k)}
+            dist = e2e._graph_dist(hv, "CA")
+            lack = [a for a in tm["atoms"] if topo.heavy(a) and a not in names]
+            gap_here = any(any(dist.get(y, 0) > dist.get(a, 0) and y in names for y in hv.get(a, [])) for a in lack)
         suffix = ":interior-gap" if gap_here else ""
         pos = "N-term" if i == 0 else ("C-term" if i == len(ch["seq"]) - 1 else "mid")
         # certified clash-free heavy-atom conformation of this residue (input atoms only)
@@ -117,12 +127,12 @@ def check(case):
                         alt = geom.dist(tmpl[xs], tmpl[ps])
                         if abs(d - alt) < abs(d - d0):
                             d0 = alt
-                if abs(d - d0) > TOL_LEN:
+                if abs(d - d0) > tol_len:
                     kind = "heavy" if topo.heavy(x) else "hydrogen"
                     res.bad(f"C05:bond-length:{kind}{suffix}",
                             f"{rn} ({pos}, {mode}): {x}-{p} {d:.3f} A, template {d0:.3f} A")  # fmt: skip
                     continue
-                tol = 6.0 if (x in ACID_H and topo.BASE.get(rn, rn) in ("ASP", "GLU")) else TOL_ANG
+                tol = max(tol_ang, 6.0) if (x in ACID_H and topo.BASE.get(rn, rn) in ("ASP", "GLU")) else tol_ang
                 for q in bonds.get(p, []):
                     if q == x or q not in out or q not in tmpl:
                         continue
@@ -150,8 +160,17 @@ def check(case):
     return res
 
 
+@st.composite
+def window_case(draw):
+    mode = draw(st.sampled_from(MODES))
+    return dict(part="windows", desc=draw(e2e.window_structure()), ff=draw(st.sampled_from(strat.FFS)), opts=list(mode), wild=False)
+
+
 def parts(tier):
-    return [Part("e2e", check, strategy=case(), budget=dict(quick=640, thorough=12000))]
+    return [
+        Part("e2e", check, strategy=case(), budget=dict(quick=640, thorough=12000)),
+        Part("windows", check, strategy=window_case(), budget=dict(quick=240, thorough=5000)),
+    ]
 
 
 def selftest():
